@@ -314,8 +314,27 @@ def _seq_cases(tier):
                        "tags": ["seq", order, f"pair{pi}", f"form{fi}"]}
 
 
+def _edit_cases(tier):
+    """edit histories of one precondition object: print, take a condition out (of the conjunction or of a nested
+    disjunction, through the enclosing precondition) or put one in, print again"""
+    a, b, c = (["$", i] for i in range(3))
+    conds = [["<=", a, "3"], [">=", ["*", "2", a], ["+", a, "1"]], ["<", ["-", b, a], "2"], [">", ["*", a, c], "-1"],
+             ["<=", ["+", ["*", "0.5", a], b], "4"]]
+    idx = 0
+    for outer in ([0], [0, 2]):
+        for inner in ([1, 3], [1, 2, 4], [3, 4]):
+            for victim_in_inner in (True, False):
+                names = _names(idx % 5)
+                idx += 1
+                yield {"kind": "edit", "sub": "E", "digits": [2, 4],
+                       "outer": [_instantiate_cond(conds[i], names) for i in outer],
+                       "inner": [_instantiate_cond(conds[i], names) for i in inner if i not in outer],
+                       "victim_in_inner": victim_in_inner, "tags": ["edit", "inner" if victim_in_inner else "outer"]}
+
+
 def cases(tier):
     out = []
+    out.extend(_edit_cases(tier))
     out.extend(_seq_cases(tier))
     out.extend(_expr_cases(tier))
     out.extend(_round_cases(tier))
@@ -327,6 +346,9 @@ def cases(tier):
 
 
 def _describe(c):
+    if c["kind"] == "edit":
+        f = lambda cs: " ".join(f"({o} {G.to_pddl(l)} {G.to_pddl(r)})" for o, l, r in cs)
+        return f"(and {f(c['outer'])} (or {f(c['inner'])})) edited"
     if c["kind"] == "seq":
         return " ; then ".join(f"({o} {G.to_pddl(l)} {G.to_pddl(r)})" for o, l, r in c["seq"])
     if c["kind"] == "expr":
@@ -1069,8 +1091,84 @@ def check_seq(case, r):
     return r
 
 
+def _canon_text(text):
+    """printed precondition as a canonical string: operands of and / or sorted"""
+    def go(t):
+        if isinstance(t, str):
+            return t
+        if t and t[0] in ("and", "or"):
+            return "(" + t[0] + " " + " ".join(sorted(go(x) for x in t[1:])) + ")"
+        return "(" + " ".join(go(x) for x in t) + ")"
+    return go(sexp.read(text))
+
+
+def check_edit(case, r):
+    """differential oracle: after every edit the simplified print of the edited object equals the simplified print of
+    a precondition built from scratch with the conditions it now holds (that print is judged by the other cases)"""
+    ctx = Ctx(r, case)
+
+    def build(outer, inner, keep=None):
+        root = Precondition("and")
+        for op, lhs, rhs in outer:
+            t = lib_tree(op, lhs, rhs)
+            root.add_condition(t)
+            if keep is not None:
+                keep.setdefault("outer", []).append(t)
+        if inner:
+            sub = Precondition("or")
+            for op, lhs, rhs in inner:
+                t = lib_tree(op, lhs, rhs)
+                sub.add_condition(t)
+                if keep is not None:
+                    keep.setdefault("inner", []).append(t)
+            root.add_condition(sub)
+        return root
+    outer, inner = list(case["outer"]), list(case["inner"])
+    for d in case["digits"]:
+        r.count("states")
+
+        def history():
+            keep = {}
+            root = build(outer, inner, keep)
+            texts = [root.print(should_simplify=True, decimal_digits=d)]
+            victim = (inner if case["victim_in_inner"] else outer)[0]
+            removed = root.remove_condition(keep["inner" if case["victim_in_inner"] else "outer"][0])
+            texts.append(root.print(should_simplify=True, decimal_digits=d))
+            root.add_condition(lib_tree(*victim))   # back in, at the top level
+            texts.append(root.print(should_simplify=True, decimal_digits=d))
+            return removed, texts
+
+        def scratch():
+            v_in = case["victim_in_inner"]
+            o2, i2 = (outer, inner[1:]) if v_in else (outer[1:], inner)
+            victim = (inner if v_in else outer)[0]
+            return [build(outer, inner).print(should_simplify=True, decimal_digits=d),
+                    build(o2, i2).print(should_simplify=True, decimal_digits=d),
+                    build(o2 + [victim], i2).print(should_simplify=True, decimal_digits=d)]
+        got, want = guard(history), guard(scratch)
+        r.count("transitions", 6)
+        if isinstance(got, Raised) or isinstance(want, Raised):
+            if isinstance(got, Raised) != isinstance(want, Raised):
+                ctx.fail("edit-history", f"d={d}: {case['pre']}: edited object {got if isinstance(got, Raised) else 'printed'}, "
+                         f"built from scratch {want if isinstance(want, Raised) else 'printed'}", "same", str(got)[:200], ["edit"])
+            continue
+        removed, texts = got
+        steps = ["as built", "after remove_condition", "after add_condition"]
+        for step, t1, t2 in zip(steps, texts, want):
+            if guard(_canon_text, t1) != guard(_canon_text, t2):
+                ctx.fail("edit-history", f"d={d}: {case['pre']} {step} (removed={removed}): the edited object prints\n{t1}\n"
+                         f"a precondition built from scratch with the same conditions prints\n{t2}", t2, t1, ["edit", step])
+                break
+        else:
+            r.outcome("edit-history-ok")
+    r.nontrivial = True
+    return r
+
+
 def check_case(case):
     r = CaseResult()
+    if case["kind"] == "edit":
+        return check_edit(case, r)
     if case["kind"] == "seq":
         return check_seq(case, r)
     if case["kind"] == "expr":
